@@ -3,7 +3,7 @@ import numpy as np
 
 from .. import core, gen, traj_drive
 
-ACTS = {'Construct': 1, 'ConstructDisp': 1, 'FaceProbe': 0.3, 'ExtendProbe': 0.5, 'GetPos': 3, 'GetDisp': 3, 'CumDisp': 1, 'Dist': 1, 'Slice': 3, 'IndexList': 1,
+ACTS = {'Construct': 1, 'ConstructDisp': 1, 'FaceProbe': 0.3, 'ExtendProbe': 0.5, 'GetPos': 3, 'GetDisp': 3, 'Frame': 2, 'CumDisp': 1, 'Dist': 1, 'Slice': 3, 'IndexList': 1,
         'Filter': 2, 'Split': 1, 'Extend': 1, 'ReadOnly': 2, 'Drift': 1, 'ApplyDrift': 1}
 
 
